@@ -105,7 +105,7 @@ func payloadString(p *payload) string {
 }
 
 // The defect paths of ZsonDecor.tla in the order in which a failing case is attributed to one of them.
-var taintOrder = []string{"namedenum", "afterfull", "emptylost", "samename", "knownbyname", "tvbinds", "defundercast"}
+var taintOrder = []string{"namedenum", "afterfull", "refbeforedef", "knownunion", "emptylost", "samename", "knownbyname", "tvbinds", "defundercast"}
 
 func primaryTaint(taints []string) string {
 	for _, t := range taintOrder {
@@ -131,6 +131,9 @@ type witness struct {
 	ZNG    string   `json:"zng,omitempty"`    // lexical: the original values as a base64 ZNG stream
 	Got    []string `json:"got,omitempty"`
 	Class  string   `json:"class,omitempty"`
+	// the spec's verdict on the case, so that a replay gives the violation the same signature
+	SpecRes   []string `json:"spec_res,omitempty"`
+	SpecTaint []string `json:"spec_taint,omitempty"`
 }
 
 type env struct {
@@ -383,7 +386,7 @@ func (e *env) checkRT(tc *rtCase, pretty int, useWriter bool) error {
 		vals = append(vals, v)
 	}
 	texts, err := write(vals, &tc.Cfg, pretty, useWriter)
-	w := witness{Kind: "roundtrip", Seq: tc.Seq, Cfg: &tc.Cfg, Pretty: pretty, Writer: useWriter, Text: strings.Join(texts, "\n")}
+	w := witness{Kind: "roundtrip", Seq: tc.Seq, Cfg: &tc.Cfg, Pretty: pretty, Writer: useWriter, Text: strings.Join(texts, "\n"), SpecRes: tc.Res, SpecTaint: tc.Taint}
 	specOK := allOK(tc.Res)
 	if err != nil {
 		c.Eval(fmt.Sprintf("rt|%s|%d|%v", tc.key(), pretty, useWriter), true)
@@ -425,6 +428,9 @@ func (e *env) checkRT(tc *rtCase, pretty int, useWriter bool) error {
 	}
 	if !b.reordered {
 		for i, t := range texts {
+			if i >= len(tc.Asts) {
+				break // the spec stops writing at the first value that is rejected
+			}
 			ast, err := zson.NewParser(strings.NewReader(t)).ParseValue()
 			if err != nil || ast == nil {
 				if tc.Res[i] != "error" {
@@ -462,6 +468,25 @@ func run(c *core.Ctx) error {
 	cases, jcases, err := e.runTLC()
 	if err != nil || cases == nil {
 		return err
+	}
+	// Self-test of the binding (C02_CORRUPT=1): falsify one predicted skeleton and one predicted
+	// outcome; the conformance step must report both as drift.
+	if os.Getenv("C02_CORRUPT") != "" {
+		for i := len(cases) / 2; i < len(cases); i++ {
+			if allOK(cases[i].Res) && cases[i].Asts[0].K == "cast" {
+				c.Logf("C02_CORRUPT: predicted skeleton of %s: outer decorator removed", cases[i].key())
+				cases[i].Asts[0] = *cases[i].Asts[0].Of
+				break
+			}
+		}
+		for i := len(cases) / 3; i < len(cases); i++ {
+			if allOK(cases[i].Res) {
+				c.Logf("C02_CORRUPT: predicted outcome of %s changed to differs", cases[i].key())
+				cases[i].Res[0] = "differs"
+				cases[i].Taint = []string{"emptylost"}
+				break
+			}
+		}
 	}
 	c.Set("roundtrip_cases", len(cases))
 	c.Set("json_cases", len(jcases))
@@ -515,6 +540,8 @@ func (e *env) runTLC() ([]rtCase, []jsonCase, error) {
 	if err != nil {
 		return nil, nil, err
 	}
+	fixed := e.probeFixed()
+	cfgBytes = bytes.Replace(cfgBytes, []byte("\n  Fixed = {}"), []byte("\n  Fixed = "+fixed), 1)
 	os.Setenv("JAVA_TOOL_OPTIONS", "-XX:ParallelGCThreads=2 -XX:TieredStopAtLevel=1")
 	type result struct {
 		cases []rtCase
@@ -561,6 +588,45 @@ func (e *env) runTLC() ([]rtCase, []jsonCase, error) {
 	return cases, jcases, nil
 }
 
+// probeFixed tells which of the switchable defect paths of ZsonDecor.tla the tree under test no longer
+// has (constant Fixed), so that the transcription follows a repaired tree.  It decides no verdict.
+func (e *env) probeFixed() string {
+	var fixed []string
+	zctx := zed.NewContext()
+	// an empty [uint8] at the top level keeps its decorator
+	empty := zed.NewValue(zctx.LookupTypeArray(zed.TypeUint8), zcode.Bytes{})
+	if t, err := safe(func() (string, error) { return zson.FormatValue(empty), nil }); err == nil && strings.Contains(t, "(") {
+		fixed = append(fixed, `"emptylost"`)
+	}
+	// a value of a named enum type reads back
+	if named, err := zctx.LookupTypeNamed("N", zctx.LookupTypeEnum([]string{"x", "y"})); err == nil {
+		v := zed.NewValue(named, zed.EncodeUint(1))
+		if t, err := safe(func() (string, error) { return zson.FormatValue(v), nil }); err == nil {
+			if got, err := safe(func() (zed.Value, error) { return zson.ParseValue(zed.NewContext(), t) }); err == nil && canon(got) == canon(v) {
+				fixed = append(fixed, `"namedenum"`)
+			}
+		}
+	}
+	read1 := func(text string) (zed.Value, bool) {
+		vals, err := readAll(zsonio.NewReader(zed.NewContext(), strings.NewReader(text)).Read)
+		if err != nil || len(vals) != 1 {
+			return zed.Null, false
+		}
+		return vals[0], true
+	}
+	if v, ok := read1("9223372036854775808"); ok && v.Type() == zed.TypeFloat64 {
+		fixed = append(fixed, `"uint64"`)
+	}
+	if v, ok := read1(`{"a":1,"a":2}`); ok && safeFormat(v) == "{a:2}" {
+		fixed = append(fixed, `"dupkey"`)
+	}
+	e.c.Set("spec_defect_paths_repaired_in_tree", fixed)
+	if len(fixed) > 0 {
+		e.c.Logf("probe: the tree under test no longer has the defect path(s) %s; ZsonDecor.tla is checked with Fixed = {%s}", strings.Join(fixed, ","), strings.Join(fixed, ","))
+	}
+	return "{" + strings.Join(fixed, ", ") + "}"
+}
+
 func (e *env) replay() error {
 	var w witness
 	if _, err := e.c.ReplayWitness(&w); err != nil {
@@ -568,13 +634,17 @@ func (e *env) replay() error {
 	}
 	switch w.Kind {
 	case "roundtrip":
-		tc := rtCase{Seq: w.Seq, Cfg: *w.Cfg}
-		for range w.Seq {
+		tc := rtCase{Seq: w.Seq, Cfg: *w.Cfg, Res: w.SpecRes, Taint: w.SpecTaint}
+		for len(tc.Res) < len(w.Seq) {
 			tc.Res = append(tc.Res, "ok") // no prediction: any failure is reported as unpredicted
 		}
-		return e.checkRT(&tc, w.Pretty, w.Writer)
+		if err := e.checkRT(&tc, w.Pretty, w.Writer); err != nil {
+			return err
+		}
+		fmt.Printf("replayed: %s\n", tc.key())
+		return nil
 	case "json":
-		e.checkJSONText(w.Text, "replay", true, nil)
+		e.checkJSONText(w.Text, w.Class, len(w.SpecTaint) == 0, w.SpecTaint)
 	case "lexical":
 		raw, err := base64.StdEncoding.DecodeString(w.ZNG)
 		if err != nil {
